@@ -21,6 +21,7 @@ def conforming_cfg(rng, k):
     # independent of k % 3 (the mode), so that every mode - the invalid one included - also runs with imported files and second-level imports
     c.n_imports = [(0, 0), (1, 1), (2, 2)][rng.randrange(3)]
     c.p_import_chain = 0.6
+    c.digit_fields = 0.25  # rate_2, x_1, imu_a_x, crc32: all lower case, all snake_case
     return c
 
 
@@ -157,6 +158,13 @@ def worker(ctx):
                 inj = None
             if inj is None or inj.accept:
                 mode = "conforming" if inj is None else "valid-twin"
+        typedefs = []
+        if mode in ("conforming", "perturbed") and rng.random() < 0.3:
+            # the deprecated spelling `typedef <type> <Name>`: accepted, with a warning that must say where
+            for dd in root.items:
+                if isinstance(dd, Alias) and rng.random() < 0.6:
+                    dd.typedef_syntax = True
+                    typedefs.append(dd)
         d = ctx.casedir(case_id)
         wit = {"case": case_id, "shard": ctx.shard, "mode": mode}
         try:
@@ -179,7 +187,7 @@ def worker(ctx):
             # ---- parse ---------------------------------------------------------------------
             err = None
             try:
-                with sut_compiler.quiet_stderr():
+                with sut_compiler.quiet_stderr() as pbuf:
                     proto = parse(main)
             except errors.ParserError as e:
                 err = e
@@ -207,6 +215,14 @@ def worker(ctx):
                 continue
             # ---- positions of definitions and references ---------------------------------------
             P = printers[root.basename]
+            if typedefs:
+                said = [l for l in pbuf.getvalue().splitlines() if "syntax warning" in l]
+                res.count("typedef_warnings_checked", len(typedefs))
+                for dd in typedefs:
+                    ln = P.pos[id(dd)][0]
+                    if not any(re.search(r"%s:L%d\b" % (re.escape(root.filename), ln), l) for l in said):
+                        res.violation("syntax-warning-without-position", f"`typedef` at {root.filename}:L{ln} ({dd.name}): no warning cites that file and line (printed: {said[:2]})",
+                                      {**wit, "line": ln, "printed": said[:4]})
             bad_pos = []
             for dd in iter_defs(root):
                 node = ast_node(proto, dd)
@@ -295,9 +311,12 @@ def worker(ctx):
                     res.violation("lint-not-advisory", f"with lint: exit {r1[0]} files {sorted(os.listdir(o1))}; with -q: exit {r2[0]} files {sorted(os.listdir(o2))}", wit)
                 rc, so, se = sut_compiler.cli(["-c", main])
                 res.count("check_only_runs")
-                want_fail = len(all_warnings) > 0
+                want_fail = len(all_warnings) > 0 or len(typedefs) > 0
                 if (rc != 0) != want_fail:
-                    res.violation("check-only-exit-status", f"-c exits {rc} with {len(all_warnings)} warnings and no error", {**wit, "stderr": se[-300:]})
+                    key = "check-only-exit-status"
+                    if rc == 0 and not all_warnings and typedefs:
+                        key = "check-only-exit-status:typedef-deprecation-only"  # known finding
+                    res.violation(key, f"-c exits {rc} with {len(all_warnings)} lint warnings, {len(typedefs)} typedef deprecation warnings and no error", {**wit, "stderr": se[-300:]})
         finally:
             shutil.rmtree(d, ignore_errors=True)
         if ctx.replay is not None:
